@@ -174,6 +174,31 @@ EXT3 = {
 }
 for pid, add in EXT3.items():
     CHECKS[pid]["text"] += add
+# Extensions made in the fifth strengthening round (see DESIGN.md §6).
+EXT4 = {
+ "C01": " Also: connections closing; the non-fault BFS hands the pool the store driver itself (optional driver methods are visible to it as in the binary).",
+ "C02": " Also: payout addresses announced by client and hosts (equal / different / none) in the product; ten spellings of --contract.price against the real binary.",
+ "C03": " Also: every unit name --contract.min-balance accepts, by magnitude (price in bare wei, minimum -10 / -1 units, verdict from a clock bracket); the real binary wired to the real contract on a served simulated chain: a client whose wallet's funds are an on-chain deposit is admitted and keeps being served.",
+ "C04": " Also: every name on the registered RPC surface (registry + all methods of the registered objects, promoted ones included) x 649 unsigned argument tuples leaves the pool digest unchanged; a current-format keep-alive that carries only the deprecated peers list, with every alteration.",
+ "C05": " Also: the node's other signed endpoints (peer, connect) share its high-water mark; nonces off the whole second replayed 15 min 1.2 s later; the real binary killed and restarted on its data directory keeps refusing every request it had accepted.",
+ "C06": " Also: replays across a kill and restart of the real binary.",
+ "C07": " Also: three racing requests of one wallet with a failing first settlement or a link among them (preemption bound 2); the real binary + the real contract on a served simulated chain: a withdrawal while the Ethereum node accepts transactions but loses its replies, then again - the wallet is paid at most once; a plain withdrawal twice pays deposit + credit - fee once.",
+ "C08": " Also: all 32 role sequences (host / client) of five registrations of one node over one open connection, both drivers.",
+ "C09": " Also: a host's connection ending while that host's own request waits for another host's slow answer; vipnode_disconnect reaching each live host exactly once.",
+ "C10": " Also: exclusive-use tracking in the controlled scheduler (maps in shared structures, *rand.Rand, buffers): two statements touching one unprotected object while both are ready to run end the execution as a data race; two peer requests at once by clients and by hosts.",
+ "C11": " Also: keep-alives that fail half-way (ledger unreachable); the pool object's private maps are part of the state key.",
+ "C12": " Also: nonces off the whole second replayed 15 min 1.2 s later (the persistent driver's records expire on whole seconds).",
+ "C13": " Also: the default data directory under $HOME, and a $HOME under which nothing can be created (the pool must not serve).",
+ "C14": " Also: request ids beyond 2^53 that differ in the low bits, string ids; 40 nested callers at once.",
+ "C15": " Also: 1-3 hosts failing the pool's own calls in every ack / error / silence combination (the reply is built from those errors); 2 kB parameter values.",
+ "C16": " Also: a refused registration leaves nothing of the object callable; request sequences over the HTTP server (a valid call, then each malformed form of the params member).",
+ "C17": " Also: numbers that no float64 holds exactly, in ids, results and error data (expected values taken from the message text, compared digit by digit); real loopback TCP: 400 x 16 kB, Close right after the last write, slow reader, both WebSocket codecs, both directions.",
+ "C18": " Also: 11 x 11 address pairs across private, carrier-grade, link-local, unique-local and public ranges under strict peering.",
+ "C19": " Also: the real binary with 7 sets of forwarding headers (advertised address = the connection's); registrations over an in-process pipe (no address: refused).",
+ "C20": " Also: the interval reconfigured between runs.",
+}
+for pid, add in EXT4.items():
+    CHECKS[pid]["text"] += add
 for pid, (old, new) in NOTE_FIX.items():
     CHECKS[pid]["note"] = CHECKS[pid]["note"].replace(old, new)
 
